@@ -157,7 +157,11 @@ func writeObject(w io.Writer, value any) error {
 		}
 		return nil
 	case reflect.Ptr:
-		return writeObject(w, reflect.ValueOf(value).Elem())
+		// a pointer prints as what it points to (a *time.Time as the time), a nil pointer as nothing
+		if rt.IsNil() {
+			return nil
+		}
+		return writeObject(w, rt.Elem().Interface())
 	case reflect.Map:
 		// fmt prints the entries of a map; Drops and pointers among them would show up as Go
 		// structs and memory addresses, so print the values they stand for
